@@ -21,7 +21,7 @@ from .common import Out, with_, drop_each, REAL_ALL, STUB_ALL
 ID = "C04"
 TIERS = {"quick": {"n": 6000, "chunk": 100}, "thorough": {"n": 60000, "chunk": 150, "wall_cap": 3300}}
 RULE = (
-    "stratum A (3 of 4 scenarios): 1-4 members drawn from 12 template families (fail on line K, fail_and_stop on a planted cell, fail.onmatch, error handled with/without 'fail', validation-mode fail/no-fail, and decoys: "
+    "stratum A (3 of 4 scenarios): 1-4 members drawn from 13 template families (fail on line K, fail_and_stop on a planted cell, fail.onmatch, error handled with/without 'fail', validation-mode fail/no-fail, and decoys: "
     "no() -> fail(), after stop(), after skip(), false left of '->', fail.onmatch on a rejected line) over a generated file, run standalone and by one of 7 run forms under a policy with or without 'fail'; "
     "stratum B: arbitrary generated programs under the secondary monitor. Non-trivial = some member's verdict event fired or a decoy was reached; distinct = (families, run form, policy has fail, event position classes)."
 )
@@ -34,7 +34,7 @@ ASSUMPTIONS = [
 REAL = REAL_ALL
 STUB = STUB_ALL + ["pass-through wrappers recording that Fail._decide_match / Stopper._stop_me / ErrorHandler._handle_if executed (secondary monitor)"]
 
-FAMILIES = ["plain", "no", "fas", "onmatch", "after_stop", "after_skip", "when_false", "error", "error_vm_fail", "error_vm_nofail", "onmatch_rejected", "fail_then_error"]
+FAMILIES = ["plain", "no", "fas", "onmatch", "after_stop", "after_skip", "when_false", "error", "error_vm_fail", "error_vm_nofail", "onmatch_rejected", "fail_then_error", "error_skip_same_line"]
 PRE = 'push("bl", line_number()) push("b", valid()) push("bf", failed())'
 POST = 'push("al", line_number()) push("a", valid()) push("af", failed()) simprobe("p")'
 
@@ -58,6 +58,9 @@ def family_body(fam, K):
         return 'simfault("s")'
     if fam == "onmatch_rejected":
         return '#c == "NOPE" fail.onmatch()'
+    if fam == "error_skip_same_line":
+        # an error and, later on the same line, a skip(): the error must still be handled
+        return f'simfault("s") line_number() == {K} -> skip()'
     if fam == "fail_then_error":
         # a fail() event and, on a later line, a handled error: the verdict must never come back
         return f'line_number() == {K} -> fail() simfault("s")'
@@ -149,6 +152,9 @@ def first_event(sc, m, lines):
         eff = pol_fail if fam == "error" else (fam == "error_vm_fail")
         hit = K in lines
         return (K if (hit and eff) else None), False, (K if (hit and pol_stop) else None)
+    if fam == "error_skip_same_line":
+        hit = K in lines
+        return (K if (hit and pol_fail) else None), False, (K if (hit and pol_stop) else None)
     if fam == "fail_then_error":
         K2 = m.get("K2", K)
         cut = K2 if (K2 in lines and pol_stop) else None
@@ -174,6 +180,7 @@ def execute(sc):
     exp = [first_event(sc, m, lines) for m in members]
     plan = [(f"m{j}", m["K"], "s") for j, m in enumerate(members) if m["fam"].startswith("error")]
     plan += [(f"m{j}", m.get("K2", m["K"]), "s") for j, m in enumerate(members) if m["fam"] == "fail_then_error"]
+    plan += [(f"m{j}", m["K"], "s") for j, m in enumerate(members) if m["fam"] == "error_skip_same_line"]
     online = {"bad": None, "seen_false": {}, "checks": 0}
 
     def monitor(cp, identity, line, site):
@@ -192,6 +199,17 @@ def execute(sc):
             online["seen_false"][identity] = True
         elif online["seen_false"].get(identity) and online["bad"] is None:
             online["bad"] = (identity, line, "reset to True", want)
+        # a caller may ask the manager for the group verdict at any moment of the run
+        if cp.csvpaths is not None and online.get("mgr_bad") is None:
+            try:
+                rm = cp.csvpaths.results_manager
+                got_mgr = rm.is_valid("g")
+                want_mgr = all(r.is_valid for r in rm.get_named_results("g"))
+                online["mgr_polls"] = online.get("mgr_polls", 0) + 1
+                if got_mgr != want_mgr:
+                    online["mgr_bad"] = (identity, line, got_mgr, want_mgr)
+            except Exception:  # noqa: BLE001
+                pass
 
     with W.World(csvpath_policy=sc["policy"]) as w:
         w.write_csv("src/f.csv", rows_a(sc))
@@ -234,6 +252,9 @@ def execute(sc):
         if online["bad"] is not None:
             ident, line, gotv, want = online["bad"]
             out.v("online_verdict", f"{where}: member {ident} {member_text(members[int(ident[1:])], int(ident[1:]))!r}: at line {line} is_valid was {gotv}, expected {want}", family=members[int(ident[1:])]["fam"])
+        if online.get("mgr_bad") is not None:
+            ident, line, gotv, want = online["mgr_bad"]
+            out.v("manager_is_valid_midrun", f"{where}: polled while member {ident} was on line {line}: results_manager.is_valid('g')={gotv} but the conjunction of the members' verdicts at that moment is {want}")
         wants = []
         fired = False
         for j, m in enumerate(members):
@@ -311,6 +332,7 @@ def execute(sc):
         out.sig = [sorted(m["fam"] for m in members), meth, "fail" in sc["policy"], sorted(set(pos))]
         out.nontrivial = fired
         out.extra["online_checks"] = online["checks"]
+        out.extra["manager_polls_midrun"] = online.get("mgr_polls", 0)
         out.probe("verdict event on the last line", "last" in pos)
         out.probe("group with both valid and failed members", k > 1 and len(set(wants)) == 2)
         out.log([list(e) for e in exp], [ops.path_state(g["cp"]) for g in got], mgr_valid, len(out.violations))
@@ -349,6 +371,13 @@ def _execute_b(sc, out):
         if ok:
             for m, cp in zip(members, cps):
                 n = verdictmon.count(cp)
+                raised = verdictmon.errors_raised(cp)
+                if raised and "fail" in sc["policy"] and n == 0:
+                    # an error was raised below an expression under a policy with 'fail' and no handler ever ran
+                    out.v(
+                        "error_under_fail_policy_not_handled",
+                        f"{meth} policy {sc['policy']}: member {gen.render(m)!r}: {raised} error(s) were raised in match components but the verdict-setting handler never ran; is_valid={cp.is_valid}",
+                    )
                 any_event = any_event or n > 0
                 if cp.is_valid != (n == 0):
                     out.v(
